@@ -2,7 +2,8 @@
 from . import sexp
 
 PIPE_LEAVES = {"just", "from_iter", "range", "empty", "never", "error", "repeat", "start", "from_result_ok", "from_result_err", "cold", "rude", "flaky", "ref"}
-STEP_HEADS = {"subject", "counter", "def", "conn", "sub", "unsub", "connect", "disconnect", "drop", "hnext", "hcomplete", "herror"}
+STEP_HEADS = {"subject", "counter", "def", "conn", "sub", "unsub", "connect", "disconnect", "drop", "hnext", "hcomplete", "herror",
+              "rawhot", "rnext", "rerror", "rcomplete"}
 
 def is_pipe(e):
     return isinstance(e, list) and e and isinstance(e[0], str) and e[0] not in ("react", "l", "p", "n", "e", "add", "mod", "const", "lt", "gt", "eq", "ne",
